@@ -5,7 +5,7 @@
 EXTENDS Paths, Json, IOUtils
 Emit == IF done
         THEN Serialize(ToJson([api |-> api.api, transport |-> api.transport, base |-> api.base, suffix |-> api.suffix, store |-> api.store,
-                               effect |-> api.effect, entry |-> entry, hist |-> hist, name |-> name, predicted |-> result]) \o "\n", "behaviours.ndjson",
+                               effect |-> api.effect, entry |-> entry, hist |-> hist, occ |-> occ, multi |-> api.multi, name |-> name, predicted |-> result]) \o "\n", "behaviours.ndjson",
                  [format |-> "TXT", charset |-> "UTF-8", openOptions |-> <<"WRITE", "CREATE", "APPEND">>]).exitValue = 0
         ELSE TRUE
 =============================================================================
